@@ -27,10 +27,22 @@ def intRt (w : Nat) (x : Int) : String :=
   | .ok s => if newIntFromString w s == .ok x then "ok" else "FAIL:unclassified"
   | _ => if w == 1 then "FAIL:i1-value-not-0-or-1" else "FAIL:unclassified"
 
+/-- `T:<hex>,<hex>` / `A:3,1` / `X:-` -/
+def groupOf (k : String) (a : List String) : List String :=
+  match a.find? (fun g => g.startsWith (k ++ ":")) with
+  | some g => let v := (g.drop 2).toString; if v == "-" || v == "" then [] else v.splitOn ","
+  | none => []
+def showGroup (k : String) (l : List String) : String := k ++ ":" ++ (if l.isEmpty then "-" else ",".intercalate l)
+
 def litOps (op : String) (a : List String) : Option String :=
   match op, a with
   | "nat.less", [x, y] => some (toString (less (argHex x) (argHex y)))
   | "nat.sort", xs => some (" ".intercalate ((sort (xs.map argHex)).map outHex))
+  | "mod.deforder", gs =>
+      let d : DefLists := ⟨(groupOf "T" gs).map argHex, (groupOf "C" gs).map argHex, (groupOf "N" gs).map argHex, (groupOf "A" gs).map String.toNat!, (groupOf "M" gs).map String.toNat!⟩
+      let p := printedOrder d
+      some (" ".intercalate [showGroup "T" (p.types.map outHex), showGroup "C" (p.comdats.map outHex), showGroup "N" (p.named.map outHex),
+                              showGroup "A" (p.attrs.map toString), showGroup "M" (p.mds.map toString)])
   | "nat.law", [_, _, _] => some "ok"
   | "nat.sorted", _ => some "ok"
   | "nat.num", [_, _, _, _] => some "ok"
